@@ -67,7 +67,7 @@ def run(ctx):
         x = A.peel(x)
         return x[0] == "agg" and x[1] == T + "QueryType" and x[2] == "Wildcard"
     fall = c.edges_where(lambda fc: A.cmp_fact({"Eq"}, Path("param2.qtype"), wild)(fc)
-                         or (fc[0] == "call" and fc[1].endswith("Vec::<T, A>::is_empty") and fc[3] is True and A.last_field(fc[2][0]) == "rrs"))
+                         or (fc[0] == "call" and A.is_empty_name(fc[1]) and fc[3] is True and A.last_field(fc[2][0]) == "rrs"))
     for a, s in ans_edges:
         for gb, gt in gets:
             ok = gb not in f.reachable(s, removed_edges=fall)
